@@ -132,4 +132,262 @@ theorem non_deposit_mint_counterexample : ¬ FullStatementConservation := by
   | err e => rw [hres] at key; simp [outcomeSum] at key
   | panic => rw [hres] at key; simp [outcomeSum] at key
 
+/-- **The property's sentence, literally**, for the frames the harness runs (`execSimple`: a call / create
+that moves the value iff it succeeds), a transaction without a `mint` field and without blobs: what the
+sender loses is exactly the value moved (`tx.value` after a successful frame, 0 otherwise) plus what coinbase,
+base fee vault, L1 fee vault and operator fee vault gain — and nothing else. -/
+theorem op_fee_conservation_exact (tx : Tx) (s : Slots) (pre : St) (fr : Frame) (oi : Option L1Info)
+    (hdep : tx.isDeposit = false) (hlon : enabled tx.spec LONDON = true)
+    (hve : validateEnv tx = none) (hvg : validateInitialGas tx = none)
+    (hvs : validateTxAgainstState tx s pre = .ok oi)
+    (hmint : tx.mint = none) (hblob : dataFee' tx = 0)
+    (hl : tx.gasLimit < U64) (hr : fr.remaining ≤ tx.gasLimit) (hn : pre.nonce + 1 < U64) (hd : FiveDistinct tx)
+    (h0 : tx.target ≠ tx.caller) (h1 : tx.coinbase ≠ tx.target) (h2 : L1_FEE_RECIPIENT ≠ tx.target)
+    (h3 : BASE_FEE_RECIPIENT ≠ tx.target) (h4 : OPERATOR_FEE_RECIPIENT ≠ tx.target)
+    (hsup : pre.bal tx.caller + pre.bal tx.coinbase + pre.bal L1_FEE_RECIPIENT
+              + pre.bal BASE_FEE_RECIPIENT + pre.bal OPERATOR_FEE_RECIPIENT < W)
+    (htgt : pre.bal tx.target + tx.value < W) :
+    ∃ kind used refunded st',
+      transact tx s pre fr = .done kind used refunded st' ∧
+      pre.bal tx.caller =
+        st'.bal tx.caller + (if fr.cls = .ok then tx.value else 0)
+        + (st'.bal tx.coinbase - pre.bal tx.coinbase) + (st'.bal BASE_FEE_RECIPIENT - pre.bal BASE_FEE_RECIPIENT)
+        + (st'.bal L1_FEE_RECIPIENT - pre.bal L1_FEE_RECIPIENT)
+        + (st'.bal OPERATOR_FEE_RECIPIENT - pre.bal OPERATOR_FEE_RECIPIENT) ∧
+      pre.bal tx.coinbase ≤ st'.bal tx.coinbase ∧ pre.bal BASE_FEE_RECIPIENT ≤ st'.bal BASE_FEE_RECIPIENT ∧
+      pre.bal L1_FEE_RECIPIENT ≤ st'.bal L1_FEE_RECIPIENT ∧
+      pre.bal OPERATOR_FEE_RECIPIENT ≤ st'.bal OPERATOR_FEE_RECIPIENT :=
+  conservation_exact_core tx s pre fr oi hdep hlon hve hvg hvs hmint hblob hl hr hn hd h0 h1 h2 h3 h4 hsup htgt
+
+example : exTx.mint = none ∧ dataFee' exTx = 0 ∧ exPre.nonce + 1 < U64 ∧ exTx.target ≠ exTx.caller ∧
+    exPre.bal exTx.target + exTx.value < W := by decide
+
+/-! ## operator fee (Isthmus) -/
+
+/-- **Rounding.** The refund is `charge(limit) − charge(used)` with each charge rounded down separately, the
+charge is monotone in the gas amount (saturation included), so what the sender finally pays,
+`charge(limit) − refund`, is exactly `charge(used)` — the amount credited to the operator fee vault. -/
+theorem operator_fee_rounding (info : L1Info) (g : Gas) (spec cL cU : Nat) (hg : GoodGas g)
+    (h1 : operatorFeeCharge info g.limit spec = some cL)
+    (h2 : operatorFeeCharge info (usedGas g) spec = some cU) :
+    operatorFeeRefund info g spec = some (cL - cU) ∧ cU ≤ cL ∧ cL - (cL - cU) = cU := by
+  have hle : usedGas g ≤ g.limit := by rw [hg.used]; omega
+  have hm := operatorFeeCharge_mono info _ _ spec cU cL hle h2 h1
+  exact ⟨operatorFeeRefund_eq info g spec cL cU h1 h2, hm, by omega⟩
+
+example : GoodGas { limit := 100000, remaining := 79000, refunded := 0 } :=
+  ⟨by decide, by decide, by decide⟩
+
+/-- with the parameters `try_fetch` reads under Isthmus (a 32-bit scalar, a 64-bit constant) and a `u64` gas
+amount nothing saturates: the charge is `⌊gas·scalar/10^6⌋ + constant` -/
+theorem operator_fee_exact (s : Slots) (spec gas : Nat) (h : enabled spec ISTHMUS = true) (hg : gas < U64) :
+    operatorFeeCharge (tryFetch s spec) gas spec =
+      some (gas * beSlice s.s8 20 24 / 1000000 + beSlice s.s8 24 32) := by
+  obtain ⟨h1, h2⟩ := tryFetch_isthmus s spec h
+  unfold operatorFeeCharge
+  simp only [h, Bool.not_true, Bool.false_eq_true, if_false, h1, h2]
+  rw [opCharge_fetched _ _ _ (beSlice_lt _ 20 24) (beSlice_lt _ 24 32) (by rw [U64_val] at hg; omega)]
+
+/-- before Isthmus there is no operator fee -/
+theorem operator_fee_zero_before_isthmus (info : L1Info) (gas spec : Nat) (h : enabled spec ISTHMUS = false) :
+    operatorFeeCharge info gas spec = some 0 := by
+  unfold operatorFeeCharge; simp [h]
+
+def regInfo : L1Info := { L1Info.default with operatorFeeScalar := some 1000000, operatorFeeConstant := some 5 }
+def regGas : Gas := { limit := 100000, remaining := 79000, refunded := 0 }
+
+/-- **Regression (repaired by commit 2dbb8f15).** Scalar 10^6, constant 5, gas limit 100000, 21000 used: the
+former formula `scalar · (remaining + refunded)` refunded 79 000 000 000 although only 100 005 had been charged;
+the repaired refund is `charge(100000) − charge(21000) = 79 000`, leaving the sender with a net debit of
+21 005 = what the vault receives. -/
+theorem operator_fee_refund_regression :
+    operatorFeeCharge regInfo 100000 ISTHMUS = some 100005 ∧
+    operatorFeeRefundOld regInfo regGas ISTHMUS = some 79000000000 ∧
+    operatorFeeRefund regInfo regGas ISTHMUS = some 79000 ∧
+    operatorFeeCharge regInfo (usedGas regGas) ISTHMUS = some 21005 := by decide
+
+/-! ## the L1 cost comes from the enveloped transaction -/
+
+/-- For a validated regular transaction the value that validation adds to the balance check, that
+`deduct_caller` debits and that `reward_beneficiary` credits to the L1 fee vault is one and the same:
+`calculate_tx_l1_cost` of `tx.optimism.enveloped_tx` under the parameters fetched from the L1Block contract,
+computed with an empty cache (0 for an empty or `0x7f…` envelope) — a function of the envelope, the fork and the
+six slots only (not of `tx.data`), returned unchanged by every later call on the cached value. -/
+theorem l1_cost_uses_enveloped_tx (tx : Tx) (s : Slots) (pre : St) (oi : Option L1Info)
+    (hdep : tx.isDeposit = false) (hW : pre.bal tx.caller < W)
+    (hvs : validateTxAgainstState tx s pre = .ok oi) :
+    ∃ info env, oi = some info ∧ tx.enveloped = some env ∧
+      calculateTxL1Cost info env tx.spec =
+        (if zeroCostEnvelope env then 0 else l1CostFresh (tryFetch s tx.spec) env tx.spec, info) := by
+  obtain ⟨info, env, l1, cL, hoi, hv, hl1⟩ := validated_of_ok tx s pre oi hdep hW hvs
+  refine ⟨info, env, hoi, hv.env_eq, ?_⟩
+  rw [hv.l1_eq, hl1, calculateTxL1Cost_fresh _ _ _ (tryFetch_cache s tx.spec)]
+
+/-- what `clear` protects against: a value whose cache is already filled answers with the cached number for
+every envelope (reachable only by writing `context.evm.inner.l1_block_info` by hand) -/
+theorem l1_cost_cached (info : L1Info) (c : Nat) (env : List Nat) (spec : Nat) (h : info.txL1Cost = some c) :
+    calculateTxL1Cost info env spec = (c, info) := by
+  unfold calculateTxL1Cost; simp [h]
+
+/-! ## deposits -/
+
+/-- **A deposit with gas price 0 mints exactly its mint.** Whatever the first frame does (`exec`), the state
+it starts from is the pre-state with the mint added to the sender (and the nonce bumped for a call), and the
+handler adds nothing afterwards: unless the deposit halts from Regolith on (next theorem), the final state IS
+the frame's result. In particular every account sum that the frame conserves grows by exactly the mint. -/
+theorem deposit_mints_exactly_partial (tx : Tx) (s : Slots) (pre : St) (exec : St → St) (fr : Frame)
+    (hdep : tx.isDeposit = true) (hvg : validateInitialGas tx = none)
+    (hegp : effectiveGasPrice tx = 0) (hdf : dataFee' tx = 0)
+    (hmint : pre.bal tx.caller + tx.mint.getD 0 < W)
+    (hx : (exec (minted tx pre)).bal tx.caller < W)
+    (hnf : ¬ (fr.cls = .halt ∧ enabled tx.spec REGOLITH = true)) :
+    ∃ kind used refunded,
+      transactWith tx s pre exec fr = .done kind used refunded (exec (minted tx pre)) ∧
+      (minted tx pre).bal tx.caller = pre.bal tx.caller + tx.mint.getD 0 ∧
+      (∀ x, x ≠ tx.caller → (minted tx pre).bal x = pre.bal x) := by
+  rw [transactWith_deposit tx s pre exec fr hdep hvg hegp hdf hmint hx]
+  have hout : ∃ kind used refunded, output tx pre (exec (minted tx pre)) fr.cls (finalGas tx fr) =
+      .done kind used refunded (exec (minted tx pre)) := by
+    unfold output
+    cases hc : fr.cls with
+    | ok => exact ⟨_, _, _, rfl⟩
+    | revert => exact ⟨_, _, _, rfl⟩
+    | halt =>
+      have hr : enabled tx.spec REGOLITH = false := by
+        cases h : enabled tx.spec REGOLITH with
+        | false => rfl
+        | true => exact absurd ⟨hc, h⟩ hnf
+      simp only [hdep, hr, Bool.and_false, Bool.false_eq_true, if_false]
+      exact ⟨_, _, _, rfl⟩
+  obtain ⟨kind, used, refunded, hout⟩ := hout
+  refine ⟨kind, used, refunded, hout, ?_, ?_⟩
+  · unfold minted; simp only [upd_same]
+  · intro x hx; unfold minted; simp only [upd_other _ _ _ _ hx]
+
+/-- a Regolith deposit minting 5 that succeeds -/
+def exDep : Tx :=
+  { exTx with spec := REGOLITH, isDeposit := true, mint := some 5, gasPrice := 0, priorityFee := none, basefee := 0,
+              enveloped := none, txNonce := none, value := 0 }
+example : validateInitialGas exDep = none ∧ effectiveGasPrice exDep = 0 ∧ dataFee' exDep = 0 ∧
+    exPre.bal exDep.caller + exDep.mint.getD 0 < W ∧
+    (execSimple exDep (minted exDep exPre) exFr).bal exDep.caller < W := by decide +kernel
+
+/-- **A failing deposit keeps mint and nonce.** For the frames of the harness: a deposit (gas price 0) whose
+first frame reverts or halts ends with the sender's balance = pre-balance + mint, nonce + 1 and every other
+balance untouched; from Regolith on a halt is reported as `FailedDeposit` with the whole gas limit used.
+Excluded (see the counterexamples): gas limit below the intrinsic gas, and a create that cannot pay its value
+unless it is a halt from Regolith on. -/
+theorem failed_deposit_persists_mint_and_nonce_partial (tx : Tx) (s : Slots) (pre : St) (fr : Frame)
+    (hdep : tx.isDeposit = true) (hvg : validateInitialGas tx = none)
+    (hegp : effectiveGasPrice tx = 0) (hdf : dataFee' tx = 0)
+    (hmint : pre.bal tx.caller + tx.mint.getD 0 < W) (hn : pre.nonce + 1 < U64)
+    (hfail : fr.cls ≠ .ok)
+    (hcreate : tx.isCreate = true →
+      (fr.cls = .halt ∧ enabled tx.spec REGOLITH = true) ∨ tx.value ≤ pre.bal tx.caller + tx.mint.getD 0) :
+    ∃ kind used st',
+      transact tx s pre fr = .done kind used 0 st' ∧
+      (kind = .failedDeposit ↔ (fr.cls = .halt ∧ enabled tx.spec REGOLITH = true)) ∧
+      (kind = .failedDeposit → used = tx.gasLimit) ∧
+      st'.bal tx.caller = pre.bal tx.caller + tx.mint.getD 0 ∧
+      st'.nonce = pre.nonce + 1 ∧
+      (∀ x, x ≠ tx.caller → st'.bal x = pre.bal x) := by
+  have hmb : (minted tx pre).bal tx.caller = pre.bal tx.caller + tx.mint.getD 0 := by
+    unfold minted; simp only [upd_same]
+  have hbal := execSimple_fail tx (minted tx pre) fr hfail
+  have hx : (execSimple tx (minted tx pre) fr).bal tx.caller < W := by rw [hbal, hmb]; exact hmint
+  unfold transact
+  rw [transactWith_deposit tx s pre (fun st => execSimple tx st fr) fr hdep hvg hegp hdf hmint hx]
+  by_cases hfd : fr.cls = .halt ∧ enabled tx.spec REGOLITH = true
+  · -- FailedDeposit: state discarded, mint and nonce from the database values
+    have hout : output tx pre (execSimple tx (minted tx pre) fr) fr.cls (finalGas tx fr) = failedDeposit tx pre := by
+      unfold output; simp only [hfd.1, hdep, hfd.2, Bool.and_self, if_true]
+    rw [hout, failedDeposit_eq tx pre hfd.2 hmint hn]
+    exact ⟨_, _, _, rfl, ⟨fun _ => hfd, fun _ => rfl⟩, fun _ => rfl, by simp only [upd_same], rfl,
+      fun x hx => by simp only [upd_other _ _ _ _ hx]⟩
+  · -- the frame's state is returned: no value moved, the nonce was bumped by `deduct_caller` or by the create
+    have hnonce : (execSimple tx (minted tx pre) fr).nonce = pre.nonce + 1 := by
+      rw [execSimple_nonce]
+      by_cases hc : tx.isCreate = true
+      · have hv : tx.value ≤ pre.bal tx.caller + tx.mint.getD 0 := by
+          rcases hcreate hc with h | h
+          · exact absurd h hfd
+          · exact h
+        have hmn : (minted tx pre).nonce = pre.nonce := by unfold minted; simp only [hc, if_true]
+        rw [hmb, hmn]
+        have h1 : ¬ pre.bal tx.caller + tx.mint.getD 0 < tx.value := by omega
+        have h2 : ¬ pre.nonce + 1 ≥ U64 := by omega
+        simp only [hc, h1, h2, not_false_eq_true, and_self, if_true]
+      · have hmn : (minted tx pre).nonce = pre.nonce + 1 := by
+          unfold minted U64ops.saturatingAdd; simp only [hc, Bool.false_eq_true, if_false, hn, if_true]
+        simp [hc, hmn]
+    have hkind : ∃ kind used, output tx pre (execSimple tx (minted tx pre) fr) fr.cls (finalGas tx fr) =
+        .done kind used 0 (execSimple tx (minted tx pre) fr) ∧ kind ≠ .failedDeposit := by
+      unfold output
+      cases hc : fr.cls with
+      | ok => exact absurd hc hfail
+      | revert => exact ⟨_, _, rfl, by decide⟩
+      | halt =>
+        have hr : enabled tx.spec REGOLITH = false := by
+          cases h : enabled tx.spec REGOLITH with
+          | false => rfl
+          | true => exact absurd ⟨hc, h⟩ hfd
+        simp only [hdep, hr, Bool.and_false, Bool.false_eq_true, if_false]
+        exact ⟨_, _, rfl, by decide⟩
+    obtain ⟨kind, used, hout, hk⟩ := hkind
+    rw [hout]
+    refine ⟨kind, used, _, rfl, ⟨fun h => absurd h hk, fun h => absurd h hfd⟩, fun h => absurd h hk, ?_, hnonce, ?_⟩
+    · rw [hbal, hmb]
+    · intro x hx; rw [hbal]; unfold minted; simp only [upd_other _ _ _ _ hx]
+
+def exFail : Frame := { cls := .halt, remaining := 0, refunded := 0 }
+example : validateInitialGas exDep = none ∧ effectiveGasPrice exDep = 0 ∧ exFail.cls ≠ .ok ∧
+    exPre.nonce + 1 < U64 ∧ exDep.isCreate = false := by decide
+
+/-- the sentence about deposits, literally: every deposit ends `done`, the six accounts grow by exactly the
+mint, and a deposit whose frame fails has nonce + 1 — FALSE of the code in three regions -/
+def FullStatementDeposit : Prop :=
+  ∀ (tx : Tx) (s : Slots) (pre : St) (fr : Frame),
+    tx.isDeposit = true → Revm.Spec.OpFees.distinct tx = true →
+    ∃ n, outcomeSum tx (transact tx s pre fr) = some (sixSum tx pre.bal + tx.mint.getD 0, n) ∧
+      (fr.cls ≠ .ok → n = pre.nonce + 1)
+
+/-- deposit, Regolith, gas limit 20 000 < 21 000 intrinsic gas -/
+def lowGasDep : Tx := { exDep with gasLimit := 20000 }
+/-- deposit with gas price 1000 on an empty account: `deduct_caller` saturates at 0, `reimburse_caller` pays
+`price · gas left` back -/
+def pricedDep : Tx := { exDep with gasPrice := 1000, mint := none }
+/-- Bedrock create deposit of value 1 from an empty account -/
+def bedrockCreateDep : Tx := { exDep with spec := BEDROCK, isCreate := true, data := [0], value := 1, mint := none, target := 0xC0DE }
+def emptyPre : St := { bal := fun _ => 0, nonce := 0 }
+
+/-- **Counterexample 1**: a deposit whose gas limit does not cover the intrinsic gas is answered with
+`CallGasCostMoreThanGasLimit` by `Evm::transact` (`preverify_transaction_inner` fails before `end` can turn the
+error into a failed deposit): neither the mint nor the nonce increment is persisted. General form:
+`transactWith_deposit_preverify`. Witness line: any generated `optx` deposit line with reply `err:intrinsic`. -/
+theorem deposit_intrinsic_gas_counterexample :
+    outcomeSum lowGasDep (transact lowGasDep exSlots exPre exFr) = none ∧
+    (∃ e, transact lowGasDep exSlots exPre exFr = .err e) := by
+  refine ⟨by decide +kernel, .intrinsic, ?_⟩
+  exact transactWith_deposit_preverify lowGasDep exSlots exPre _ exFr .intrinsic (by decide) (by decide)
+
+/-- **Counterexample 2**: a deposit with a non-zero gas price (outside the OP protocol, where deposits carry
+price 0) on an account that cannot pay `limit · price`: the debit saturates at 0, the reimbursement of the
+unused and refunded gas (79 000 + 4 200 units) is paid in full — 83 200 000 wei appear from nothing (with a funded account the fee is burnt
+instead: nobody is credited). -/
+theorem deposit_gas_price_counterexample :
+    outcomeSum pricedDep (transact pricedDep exSlots emptyPre exFr) = some (83200000, 1) ∧
+    sixSum pricedDep emptyPre.bal + pricedDep.mint.getD 0 = 0 := by decide +kernel
+
+/-- **Counterexample 3**: Bedrock, a create deposit that cannot pay its value: the frame fails with
+`OutOfFunds` before the nonce is bumped and Bedrock returns the halt as it is — the nonce stays 0. -/
+theorem deposit_bedrock_create_nonce_counterexample :
+    outcomeSum bedrockCreateDep (transact bedrockCreateDep exSlots emptyPre exFail) = some (0, 0) := by
+  decide +kernel
+
+theorem deposit_full_statement_false : ¬ FullStatementDeposit := by
+  intro h
+  obtain ⟨n, h1, _⟩ := h lowGasDep exSlots exPre exFr rfl (by decide)
+  rw [deposit_intrinsic_gas_counterexample.1] at h1
+  cases h1
+
 end Revm.Props.C33
